@@ -701,7 +701,7 @@ pub fn run(run: &Run) {
     let in_zone = |c: &Case, o: &mut Obs| if c.zone == zone { check(c, o) } else { Ok(()) };
     // committed regressions of this zone
     {
-        let dir = std::path::PathBuf::from(format!("{}/replays/C16", VERIF_DIR));
+        let dir = std::path::PathBuf::from(format!("{}/replays/C16", verif_dir()));
         if let Ok(rd) = std::fs::read_dir(&dir) {
             let mut files: Vec<_> = rd.flatten().map(|e| e.path()).collect();
             files.sort();
